@@ -141,6 +141,18 @@ impl<Class, Other> ParsedJar<Class, Other>
 	}
 }
 
+/// Verification hook: the jar writer over a caller-supplied sink (the public routes only write to a `Vec` or a path).
+#[cfg(feature = "verif")]
+impl<Class, Other> ParsedJar<Class, Other>
+	where
+		Class: IsClass,
+		Other: IsOther,
+{
+	pub fn verif_write<W: Write + Seek>(&self, writer: W) -> Result<W> {
+		self.write(writer)
+	}
+}
+
 #[derive(Debug)]
 pub struct ParsedJarEntry<Class, Other> {
 	pub attr: BasicFileAttributes,
